@@ -10,7 +10,7 @@ STRUCT = [b"\r", b"\n", b" ", b"\t", b":", b";", b",", b"=", b"+", b"-", b"0", b
           b"\x00", b"\x80", b"\xff", b"x", b"/", b"%"]
 
 GOOD_METHODS = [b"GET", b"POST", b"PUT", b"DELETE", b"OPTIONS", b"HEAD", b"M", b"PATCH", b"get", b"M-SEARCH",
-                "GÉT".encode(), b"a!b"]
+                "GÉT".encode(), b"a!b", "R\u00c9SUM\u20ac".encode(), "\U0001F600GET".encode(), "G\U0001F600".encode()]
 BAD_METHODS = [b"", b"G\xffT", b"G\rT", b"G\nT", b"\xc3", b"G\tT"]
 
 GOOD_TARGETS = [b"/", b"/a", b"/a/b/c", b"/a%20b", b"/a%20b?q=1&r=%41", b"/x?y#z", b"*", b"/%E2%82%AC", b"/a//b/",
@@ -30,7 +30,7 @@ BAD_PROTOCOLS = [b"HTTP/1.0", b"HTTP/1.10", b"http/1.1", b"HTTP/1.1 ", b"", b"HT
 GOOD_CODES = [b"200", b"404", b"999", b"0", b"100", b"099", b"000200", b"1", b"204", b"304", b"500"]
 BAD_CODES = [b"1000", b"+200", b"-1", b"2 00", b"0x10", b"", b"18446744073709551616", b"18446744073709551615",
              b"20a", b"2_0", b"9999", b" 200", b"1e2", b"\xef\xbc\x91"]
-REASONS = [b"OK", b"Not Found", b"", b"OK\r", b"\r", b"a\rb", b"  two  spaces ", "r\u00e9ason".encode(), b"a:b", b"HTTP/1.1 200 OK", b"x\ty"]
+REASONS = [b"OK", b"Not Found", b"", b"OK\r", b"\r", b"a\rb", "\U0001F600 ok \u20ac".encode(), "\U0001F600".encode(), b"  two  spaces ", "r\u00e9ason".encode(), b"a:b", b"HTTP/1.1 200 OK", b"x\ty"]
 
 NEUTRAL_NAMES = [b"Host", b"X-Foo", b"A", b"Accept", b"x-y_z", b"Date", b"X!", b"Set-Cookie", b"1"]
 FRAMING_NAMES = [b"Content-Length", b"Transfer-Encoding", b"Trailer", b"Content-Encoding", b"Content-Type"]
@@ -263,7 +263,7 @@ def hexsize(rng, n):
     return s
 
 
-EXTS = [b"", b"", b"", b";a", b";a=b", b";x\r", b";\r", b';a="q z"', b";a;b=c", b"; a", b";", b";=", b";\x00", b";a;;b", b";a=\n", b";\t"]
+EXTS = [b"", b"", b"", b";a", b";a=b", b";x\r", b";\r", ';n="\U0001F600"'.encode(), ";\u20ac=\U0001F600\U0001F600".encode(), b';a="q z"', b";a;b=c", b"; a", b";", b";=", b";\x00", b";a;;b", b";a=\n", b";\t"]
 # extensions outside the ASCII text the round-trip direction of C05 is stated for (obs-text): outcome compared with the model only
 ODD_EXTS = [b";a=\xff", b';q="\xc3\xa9"', b";\xc3"]
 BAD_SIZES = [b"+3", b"g", b"", b" 3", b"3 ", b"-1", b"0x3", b"3,3", b"ffffffffffffffff", b"10000000000000000",
@@ -475,6 +475,16 @@ def crlf_cuts(s: bytes):
     return [i + 1 for i in range(len(s) - 1) if s[i:i + 2] == CRLF]
 
 
+def line_mid_cuts(s: bytes):
+    """positions strictly inside the lines of s (between two line ends), about two thirds into each line"""
+    ends = [0] + [i + 2 for i in range(len(s) - 1) if s[i:i + 2] == CRLF] + [len(s)]
+    out = []
+    for a, b in zip(ends, ends[1:]):
+        if b - a >= 4:
+            out.append(a + max(2, (2 * (b - a)) // 3))
+    return [p for p in out if 0 < p < len(s)]
+
+
 def cut(s: bytes, points):
     pts = sorted(set(p for p in points if 0 < p < len(s)))
     out, prev = [], 0
@@ -504,6 +514,12 @@ def schedules(rng, s: bytes, n_random=3, max_all=0):
         k = rng.randint(1, 5)
         out.append(cut(s, [rng.randint(1, len(s) - 1) for _ in range(k)]))
     out.append(cut(s, [rng.randint(1, len(s) - 1)]))
+    # one cut in the middle of a line (state kept while a line is incomplete must not leak into later lines)
+    mids = line_mid_cuts(s)
+    if mids:
+        rng.shuffle(mids)
+        for p in mids[:3]:
+            out.append(cut(s, [p]))
     return out
 
 
